@@ -47,6 +47,7 @@ type Result struct {
 	Disagreements      []Disagreement    `json:"disagreements"`
 	OracleChecked      int               `json:"oracle_checked"`
 	Failures           []Failure         `json:"failures"`
+	FailureCounts      map[string]int    `json:"failure_counts"`
 	KnownReplayed      map[string]string `json:"known_findings_replayed"` // finding id -> "reproduced" | "not-reproduced"
 	Notes              []string          `json:"notes,omitempty"`
 	Exhaustive         bool              `json:"exhaustive"`
@@ -55,7 +56,7 @@ type Result struct {
 
 // NewResult makes an empty record.
 func NewResult(prop, tier string, seed int64) *Result {
-	return &Result{Property: prop, Tier: tier, Seed: seed, Distribution: map[string]int{}, KnownReplayed: map[string]string{},
+	return &Result{Property: prop, Tier: tier, Seed: seed, Distribution: map[string]int{}, KnownReplayed: map[string]string{}, FailureCounts: map[string]int{},
 		seen: map[string]bool{}, Disagreements: []Disagreement{}, Failures: []Failure{}, Samples: []any{}}
 }
 
@@ -103,10 +104,18 @@ func (r *Result) Disagree(d Disagreement) {
 // Fail records a property failure on the implementation (at most 50 are kept).
 func (r *Result) Fail(f Failure) {
 	r.mu.Lock()
-	if len(r.Failures) < 50 {
+	defer r.mu.Unlock()
+	// at most 4 per signature, so that a frequent (e.g. known) failure cannot crowd out another one
+	n := 0
+	for _, g := range r.Failures {
+		if g.Signature == f.Signature {
+			n++
+		}
+	}
+	r.FailureCounts[f.Signature]++
+	if n < 4 && len(r.Failures) < 60 {
 		r.Failures = append(r.Failures, f)
 	}
-	r.mu.Unlock()
 }
 
 // Write stores the record as JSON.
